@@ -35,6 +35,11 @@ class World:
                 continue
             f, n, v = rel.split("/")
             common.mkprod(self.stacks[si], n, v, "", flavor=f)
+        self.src = os.path.join(self.root, "src")          # sources of external files (-L), outside the stacks
+        os.makedirs(self.src)
+        for cid in (1, 2, 3):
+            with open(os.path.join(self.src, "c%d" % cid), "w") as f:
+                f.write("content %d\n" % cid)
         self.clock = 1000000000
         self.known = {}
         self.normalise()
@@ -153,7 +158,7 @@ class World:
         """What is on disk, read without any eups code.  Returns
         {"vfiles": [[si, name, version, [[flavor, PROD_DIR, UPS_DIR, TABLE_FILE]..]]..],
          "cfiles": [[si, name, tag, [[flavor, version]..]]..], "other": [paths]}"""
-        vfiles, cfiles, other = [], [], []
+        vfiles, cfiles, other, extras = [], [], [], []
         for si, st in enumerate(self.stacks):
             db = os.path.join(st, "ups_db")
             for n in sorted(os.listdir(db)):
@@ -161,6 +166,18 @@ class World:
                 if not os.path.isdir(pd):
                     if not CACHE_RE.search(n):
                         other.append("%d:%s" % (si, n))
+                    continue
+                if n in FLAVS:                     # extra directories: ups_db/<flavor>/<name>/<version>/<path>
+                    for dp, dn, fn in os.walk(pd):
+                        for f in fn:
+                            rel = os.path.relpath(os.path.join(dp, f), pd).split(os.sep)
+                            with open(os.path.join(dp, f)) as fh:
+                                txt = fh.read().strip()
+                            cid = int(txt.split()[1]) if txt.startswith("content ") else txt
+                            if len(rel) >= 3:
+                                extras.append([si, n, rel[0], rel[1], "/".join(rel[2:]), cid])
+                            else:
+                                other.append("%d:%s/%s" % (si, n, "/".join(rel)))
                     continue
                 ents = sorted(os.listdir(pd))
                 if not ents:
@@ -173,7 +190,7 @@ class World:
                         cfiles.append([si, n, f[:-6], _parse_groups(p, ("VERSION",))])
                     else:
                         other.append("%d:%s/%s" % (si, n, f))
-        return {"vfiles": vfiles, "cfiles": cfiles, "other": other}
+        return {"vfiles": vfiles, "cfiles": cfiles, "other": other, "extras": sorted(extras)}
 
 
 def _parse_groups(path, keys):
@@ -254,17 +271,66 @@ def _install_audit(events):
 EVENT_FILE = ".events-of-crashed-child"
 
 
+MSG_RES = [(re.compile(r'^Declaring directory (.*) as (\S+) (\S+)(?: (\S+))? in (.*)$'), "declaring"),
+           (re.compile(r'^Assigning tag "(\S+)" to '), "assigning"),
+           (re.compile(r'^eups undeclare --tag (\S+) (\S+)'), "untag"),
+           (re.compile(r'^Removing (\S+) (\S+) from version list for (.*)$'), "removing"),
+           (re.compile(r'^rm -rf (.*)$'), "rmrf"),
+           (re.compile(r'^cp (\S+) (\S+)$'), "copy")]
+
+
+def parse_would(world, text):
+    """the 'would do' messages of a dry run, in order, in the model's vocabulary"""
+    out = []
+    for line in text.splitlines():
+        line = line.strip()
+        for rx, kind in MSG_RES:
+            m = rx.match(line)
+            if not m:
+                continue
+            if kind == "declaring":
+                st = world.stacks.index(m.group(5)) if m.group(5) in world.stacks else m.group(5)
+                out.append(["declaring", st, m.group(4)])
+            elif kind == "assigning":
+                out.append(["assigning", m.group(1)])
+            elif kind == "untag":
+                out.append(["untag", m.group(1)])
+            elif kind == "removing":
+                st = world.stacks.index(m.group(3)) if m.group(3) in world.stacks else m.group(3)
+                out.append(["removing", m.group(2), st])
+            elif kind == "copy":
+                parts = m.group(2).split("/ups_db/", 1)[-1].split("/")      # <flavor>/<name>/<version>/<path>
+                out.append(["copy", "/".join(parts[3:])])
+            else:
+                out.append(["rmrf", world.canon_path(m.group(1))])
+            break
+    return out
+
+
 def _child_command(world, cmd, probe=None):
-    _quiet_fds()
+    msgfile = None
+    if cmd.get("noaction"):
+        msgfile = os.path.join(world.root, ".dry-run-output")
+        fd = os.open(msgfile, os.O_WRONLY | os.O_CREAT | os.O_TRUNC, 0o600)
+        os.dup2(fd, 1)
+        os.dup2(fd, 2)
+    else:
+        _quiet_fds()
     os.environ["EUPS_PATH"] = ":".join(world.stacks)
     os.environ["EUPS_USERDATA"] = world.uds[cmd.get("user", "A")]
     events = []
     _install_audit(events)
+    state0 = {}
+    if cmd.get("setup"):
+        sv, sf, ss = cmd["setup"]        # the environment of a shell in which `setup -f sf name sv` was run
+        os.environ["SETUP_" + cmd["name"].upper()] = "%s %s -f %s -Z %s" % (cmd["name"], sv, sf, world.stacks[ss])
     if cmd.get("interpose"):
-        cmd["interpose"](cmd, world, events)
+        cmd["interpose"](cmd, world, events, state0)
     e = common.new_eups(flavor=cmd.get("flavor", "Linux"), force=bool(cmd.get("force")),
                         noaction=bool(cmd.get("noaction")))
     loaded = [sorted(e.versions[s].getFlavors()) for s in world.stacks]
+    view = view_of(world, e)
+    state0.update(loaded=loaded, view=view)
     op = cmd["op"]
     st = (lambda i: None if i is None else world.stacks[i])
     ret, exc = None, None
@@ -273,6 +339,8 @@ def _child_command(world, cmd, probe=None):
             kw = {}
             if cmd.get("table") == "none":
                 kw["tablefile"] = "none"
+            if cmd.get("ext"):
+                kw["externalFileList"] = [(os.path.join(world.src, "c%d" % cid), path) for path, cid in cmd["ext"]]
             ret = e.declare(cmd["name"], cmd["version"], world.path_of(cmd.get("dir")), st(cmd.get("stack")),
                             tag=cmd.get("tag"), **kw)
         elif op == "undeclare":
@@ -290,15 +358,48 @@ def _child_command(world, cmd, probe=None):
             raise ValueError("unknown op %r" % (op,))
     except Exception as ex:  # noqa: the outcome of the command; the events so far still count
         exc = (type(ex).__name__, str(ex)[:300])
-    out = {"loaded": loaded, "ret": None if ret is None else bool(ret), "events": [x for x in events if x], "exc": exc}
+    out = {"loaded": loaded, "view": view, "ret": None if ret is None else bool(ret),
+           "events": [x for x in events if x], "exc": exc}
+    if msgfile:
+        import sys
+        sys.stdout.flush()
+        sys.stderr.flush()
+        with open(msgfile) as fh:
+            out["would"] = parse_would(world, fh.read())
     if probe and exc is None:
         out["probe"] = probe(world, e)
     return out
 
 
+def view_of(world, e):
+    """the in-memory stacks of an Eups instance (`ProductStack.lookup`: flavor -> name -> ProductFamily with
+    `.versions` and `.tags`), in the canonical form of a listing"""
+    decls, tags = [], []
+    for si, s in enumerate(world.stacks):
+        for fl, names in e.versions[s].lookup.items():
+            for n, fam in names.items():
+                for v, data in fam.versions.items():
+                    decls.append([si, n, v, fl, world.canon_path(data[0]), world.canon_table(n, data[0], data[1])])
+                for t, v in fam.tags.items():
+                    tags.append([si, t, n, fl, v])
+    return {"decls": sorted(decls, key=common.jdump), "tags": sorted(tags)}
+
+
 def run_command(world, cmd, probe=None):
     """Run one command in a fresh forked child; returns (outcome, info)."""
     return outcome_of(common.in_child(_child_command, world, cmd, probe))
+
+
+def _child_clearcache(world, user):
+    """`eups admin clearCache` of one user (the CLI calls eups.app.clearCache(inUserDir=True))"""
+    _quiet_fds()
+    os.environ["EUPS_PATH"] = ":".join(world.stacks)
+    os.environ["EUPS_USERDATA"] = world.uds[user]
+    events = []
+    _install_audit(events)
+    import eups.app
+    eups.app.clearCache(inUserDir=True)
+    return {"events": [x for x in events if x]}
 
 
 def _child_read(world):
@@ -357,7 +458,7 @@ def rel_of(f, n, v):
 
 
 def gen_history(rng, ncmds, users=("A",), crash=0.0, rmcache=0.0, query=0.0, noaction=0.08, direct_tag=0.12,
-                remove=0.03):
+                remove=0.03, ext=0.08):
     """A history weighted toward the order-sensitive patterns: few product names, tag - undeclare -
     redeclare, two flavors in one version file, the same product in both stacks."""
     names = rng.sample(NAMES, rng.choice([1, 1, 2, 3]))
@@ -374,8 +475,11 @@ def gen_history(rng, ncmds, users=("A",), crash=0.0, rmcache=0.0, query=0.0, noa
         user = rng.choice(users)
         r = rng.random()
         if r < rmcache:
-            cmds.append({"op": "rmcache", "user": rng.choice(users), "stack": rng.randrange(NSTACKS),
-                         "flavor": rng.choice(FLAVS)})
+            if rng.random() < 0.25:
+                cmds.append({"op": "clearcache", "user": rng.choice(users)})
+            else:
+                cmds.append({"op": "rmcache", "user": rng.choice(users), "stack": rng.randrange(NSTACKS),
+                             "flavor": rng.choice(FLAVS)})
             continue
         f = "generic" if rng.random() < pgen else "Linux"
         if r < rmcache + query:
@@ -409,18 +513,29 @@ def gen_history(rng, ncmds, users=("A",), crash=0.0, rmcache=0.0, query=0.0, noa
                 c["table"] = "none"
             if rng.random() < 0.12:
                 c["force"] = True
+            if rng.random() < ext:
+                c["ext"] = [[p, rng.choice([1, 2])] for p in rng.sample(["doc/a.txt", "b.cfg", "doc/c.txt"], rng.choice([1, 1, 2]))]
             if (n, v, f) not in known:
                 known.append((n, v, f))
         elif kind in ("undeclare", "undeclare_nov", "untag", "untag_nov", "vat", "vat_nov"):
             c.update(op="undeclare", version=None if kind.endswith("_nov") else v, stack=stack,
                      tag=t if kind in ("untag", "untag_nov", "vat", "vat_nov") else None,
                      vat=kind in ("vat", "vat_nov"))
+            if kind in ("undeclare", "undeclare_nov", "vat") and rng.random() < 0.1:
+                c["setup"] = [v if rng.random() < 0.8 else rng.choice(VERS), f if rng.random() < 0.7 else rng.choice(FLAVS),
+                              rng.randrange(NSTACKS)]
+                if rng.random() < 0.3:
+                    c["force"] = True
             if kind in ("undeclare", "vat") and (n, v, f) in known and rng.random() < 0.8:
                 known.remove((n, v, f))
         elif kind == "remove":
             c.update(op="remove", version=v)
             if rng.random() < 0.3:
                 c["recursive"] = True
+            if rng.random() < 0.1:
+                c["setup"] = [v, f if rng.random() < 0.7 else rng.choice(FLAVS), rng.randrange(NSTACKS)]
+                if rng.random() < 0.3:
+                    c["force"] = True
             if (n, v, f) in known and rng.random() < 0.8:
                 known.remove((n, v, f))
         elif kind == "assign":
@@ -435,7 +550,7 @@ def gen_history(rng, ncmds, users=("A",), crash=0.0, rmcache=0.0, query=0.0, noa
     return {"missing": missing, "cmds": cmds}
 
 
-def _crash_interposer(cmd, world, events):
+def _crash_interposer(cmd, world, events, state0):
     """In the child: die right after the k-th top-level Database mutation returns (between the database
     update and the cache update).  Module attribute replacement only."""
     import json
@@ -457,7 +572,8 @@ def _crash_interposer(cmd, world, events):
                     state["count"] += 1
                     if state["count"] == k:
                         with open(os.path.join(world.root, EVENT_FILE), "w") as fh:
-                            json.dump([x for x in events if x], fh)
+                            json.dump({"events": [x for x in events if x], "loaded": state0.get("loaded"),
+                                       "view": state0.get("view")}, fh)
                         os._exit(17)
         return w
     for m in ("declare", "undeclare", "assignTag", "unassignTag"):
@@ -478,6 +594,12 @@ def run_history(case, hash_noaction=True, probe=None, world_hook=None):
                 rec["out"] = "ok"
                 if os.path.exists(p):
                     os.remove(p)
+            elif cmd["op"] == "clearcache":
+                r = common.in_child(_child_clearcache, w, cmd["user"])
+                rec["out"] = "ok" if r[0] == "ok" else "Other:%s" % (r[1],)
+                if r[0] == "ok":
+                    events = r[1]["events"]
+                rec["caches_left"] = sorted(k for k in w.cache_state() if k.startswith(cmd["user"] + "/"))
             else:
                 h0 = w.tree_hash() if (hash_noaction and cmd.get("noaction")) else None
                 c = dict(cmd)
@@ -488,13 +610,18 @@ def run_history(case, hash_noaction=True, probe=None, world_hook=None):
                     out, info = "Crashed", None
                     ef = os.path.join(w.root, EVENT_FILE)
                     with open(ef) as fh:
-                        events = json.load(fh)
+                        saved = json.load(fh)
                     os.remove(ef)
+                    events = saved["events"]
+                    rec["loaded"], rec["view"] = saved["loaded"], saved["view"]
                 rec["out"] = out
                 if isinstance(info, dict):
                     events = info.get("events")
                     if "loaded" in info:
                         rec["loaded"] = info["loaded"]
+                        rec["view"] = info.get("view")
+                    if "would" in info:
+                        rec["would"] = info["would"]
                     if "probe" in info:
                         rec["probe"] = info["probe"]
                     if info.get("detail") and out.startswith("Other"):
@@ -513,6 +640,7 @@ def run_history(case, hash_noaction=True, probe=None, world_hook=None):
             rec["raw"] = {"vfiles": [[si, n, v, [g[0] for g in groups]] for si, n, v, groups in parsed["vfiles"]],
                           "cfiles": [[si, n, t, [g[0] for g in groups]] for si, n, t, groups in parsed["cfiles"]],
                           "other": parsed["other"]}
+            rec["extras"] = parsed["extras"]
             if world_hook:
                 world_hook(w, cmd, rec)
             steps.append(rec)
@@ -531,8 +659,11 @@ def model_request(case, pinned=False, m="c06"):
         if c["op"] == "rmcache":
             cmds.append({"op": "rmcache", "user": UID[c["user"]], "stack": c["stack"], "flavor": c["flavor"]})
             continue
+        if c["op"] == "clearcache":
+            cmds.append({"op": "clearcache", "user": UID[c["user"]]})
+            continue
         d = {"op": c["op"], "user": UID[c.get("user", "A")], "self": c.get("flavor", "Linux")}
-        for k in ("name", "version", "dir", "stack", "tag", "force", "noaction", "vat", "crash", "recursive"):
+        for k in ("name", "version", "dir", "stack", "tag", "force", "noaction", "vat", "crash", "recursive", "setup", "ext"):
             if k in c:
                 d[k] = c[k]
         if c.get("table") == "none":
@@ -550,7 +681,10 @@ def model_steps(ans):
         raise common.InfraError("model driver: %s" % ans["bad-op"])
     out = []
     for st in ans["steps"]:
+        fl = st.get("files") or {"vfiles": [], "cfiles": [], "abs": {"decls": [], "tags": []}}
         out.append({"out": st["out"], "crashed": st["crashed"], "loaded": [sorted(x) for x in st["flavs"]],
                     "db": canon_spec(st["db"]), "view": canon_spec(st["view"]), "trace": st["trace"],
-                    "caches": st["caches"]})
+                    "caches": st["caches"], "would": st.get("would", []), "extras": sorted(st.get("extras", [])),
+                    "raw": {"vfiles": sorted(fl["vfiles"]), "cfiles": sorted(fl["cfiles"])},
+                    "files_abs": canon_spec(fl["abs"])})
     return out
